@@ -85,6 +85,9 @@ def gen_input(N, tfail, ifail):
         raise IterFail(N)
 
 
+_TL = threading.local()
+
+
 class CFBackend(JP.ParallelBackendBase):
     """A third-party style backend on concurrent.futures: the completion callback of a batch runs in the worker
     thread that finished it, so callbacks of different batches run CONCURRENTLY (the stock backends funnel them
@@ -106,14 +109,23 @@ class CFBackend(JP.ParallelBackendBase):
 
     def submit(self, func, callback=None):
         k = getattr(self, "submit_fail_at", None)
-        if k is not None and threading.get_ident() == STATE["main"]:
-            # a backend failure at dispatch, in the caller's thread only (e.g. a broken executor refusing work)
+        if k is not None and threading.get_ident() == STATE["main"] and not getattr(_TL, "in_cb", False):
+            # a backend failure at dispatch by the caller itself (e.g. a broken executor refusing work) -- not inside
+            # a completion callback, which concurrent.futures runs synchronously in the submitting thread when the
+            # future is already done: an exception there is swallowed by the executor (see design.d/M1.md)
             self.n_submits = getattr(self, "n_submits", 0) + 1
             if self.n_submits == k:
+                self.refused = True
                 raise SubmitFail(k)
         fut = self._pool.submit(func)
         if callback is not None:
-            fut.add_done_callback(callback)
+            def cb(f, callback=callback):
+                _TL.in_cb = True
+                try:
+                    callback(f)
+                finally:
+                    _TL.in_cb = False
+            fut.add_done_callback(cb)
         return fut
 
     def retrieve_result_callback(self, out):
@@ -170,6 +182,7 @@ def run_case(c):
             except BaseException as e:  # noqa
                 out["raised"] = [type(e).__name__, [a if isinstance(a, (int, str)) else repr(a) for a in e.args]]
             res["calls"].append(out)
+            res["refused"] = bool(getattr(backend, "refused", False))
         STATE["at"] = None
     t = threading.Thread(target=body, daemon=True)
     t.start()
@@ -177,6 +190,15 @@ def run_case(c):
     res["stalls"], res["visits"] = STATE["stalls"], STATE["count"]
     if t.is_alive():
         res["hang"] = True
+        # where every thread is stuck (diagnostic only)
+        import traceback
+        stacks = {}
+        for ident, fr in sys._current_frames().items():
+            if ident == threading.get_ident():
+                continue
+            stacks[str(ident) + ("(caller)" if ident == STATE["main"] else "")] = [
+                "%s:%d %s" % (os.path.basename(f.filename), f.lineno, f.name) for f in traceback.extract_stack(fr)[-7:]]
+        res["stacks"] = stacks
     return res
 
 
